@@ -233,9 +233,12 @@ def _manual_impl(I, trait, v):
     """crate-defined non-derived impl of `trait` for the runtime type of v, if any"""
     if isinstance(v, Adt):
         key = (trait, v.name)
-        if key in I.impls and key not in I.derived:
+        if key in I.impls and (key not in I.derived or trait not in STD_DERIVES):
             return I.impls[key][0]
     return None
+
+
+STD_DERIVES = {'Clone', 'Copy', 'PartialEq', 'Eq', 'PartialOrd', 'Ord', 'Hash', 'Debug', 'Default'}
 
 
 @R.model(r' as PartialEq>::eq$', r' as PartialEq>::ne$')
